@@ -10,10 +10,11 @@ slice are the same list `[]` and a nil `Expr` interface is `none`.
 
 Full-strength statement of the property on the model:
     ∀ q, unmarshalQuery (marshalQuery q) = .ok q        and   ∀ e, unmarshal (marshal e) = .ok e.
-It is FALSE of the code (see `namespace Neg`): a `NumberLiteral` that is ±Inf/NaN is written as
-`"expr":null` and the receiving side fails; an interval that is not a whole number of seconds is
-cut by `Interval.String`. The `_exact` theorems say what the code does on EVERY input; the
-`_partial` theorems are the property under the explicit guards.
+It is FALSE of the code (see `namespace Neg`): a `NumberLiteral` that is ±Inf/NaN and a nil child
+expression (both reachable from SQL text the parser accepts) are written as `null` and the
+receiving side fails; an interval that is not a whole number of seconds (reachable through
+int64 overflow in `parseDuration`) is cut by `Interval.String`. The `_exact` theorems say what
+the code does on EVERY input; the `_partial` theorems are the property under the explicit guards.
 -/
 import LinVerif.Lemmas.C17
 import LinVerif.Generated.C17
@@ -41,15 +42,19 @@ theorem tie_suffixUnits : Generated.C17.suffixUnits = suffixUnits := by decide
 /-! ## The model uses exactly the tabled vocabulary -/
 
 /-- every node is written under the tag its `Marshal` case uses, and `Unmarshal` has a case for it -/
-theorem marshal_tag (e : Expr) :
+theorem marshal_tag (e : Expr) (hn : e ≠ .nil) :
     (∃ kvs, marshal e = .obj kvs ∧ getStr kvs "type" = .ok e.tag) ∧
     (e.goType, e.tag) ∈ marshalTagTable ∧ e.tag ∈ unmarshalTagTable := by
-  cases e <;> simp [marshal, getStr, lookup, Expr.tag, Expr.goType, marshalTagTable, unmarshalTagTable]
+  cases e with
+  | nil => exact absurd rfl hn
+  | _ => simp [marshal, getStr, lookup, Expr.tag, Expr.goType, marshalTagTable, unmarshalTagTable]
 
 /-- the keys of an envelope are the json tags of its Go struct, in order -/
-theorem marshal_keys (e : Expr) :
+theorem marshal_keys (e : Expr) (hn : e ≠ .nil) :
     ∃ kvs, marshal e = .obj kvs ∧ kvs.map Prod.fst = structKeys e.envelope := by
-  cases e <;> simp [marshal, Expr.envelope, structKeys, wireStructTable]
+  cases e with
+  | nil => exact absurd rfl hn
+  | _ => simp [marshal, Expr.envelope, structKeys, wireStructTable]
 
 /-- the tags are pairwise different (one `Unmarshal` case per kind) -/
 theorem tags_nodup : (marshalTagTable.map Prod.snd).Nodup := by decide
@@ -65,10 +70,10 @@ theorem binaryOPString_table : binaryOpTable.all (fun t => binaryOPString t.2.1 
 def fullQuery : Query :=
   { explain := true, ns := "ns", metricName := "cpu",
     selectItems := [.selectItem (.binary (.call 1 [.field "f"]) (.number ⟨0x4004000000000000⟩) 6) "x"],
-    allFields := true, condition := some (.binary (.equals "host" "a") (.not (.inE "ip" ["1", "2"])) 1),
+    allFields := true, condition := .binary (.equals "host" "a") (.not (.inE "ip" ["1", "2"])) 1,
     timeRange := { start := 1000, stop := 2000 }, interval := 10000, storageInterval := 60000,
     intervalRatio := 6, autoGroupByTime := true, groupBy := ["host"],
-    having := some (.binary (.field "f") (.number ⟨0x3FF0000000000000⟩) 9),
+    having := .binary (.field "f") (.number ⟨0x3FF0000000000000⟩) 9,
     orderByItems := [.orderBy (.field "f") true], limit := 5 }
 
 theorem query_keys : (queryFields fullQuery).map Prod.fst = structKeys "innerQuery" := by decide
@@ -76,19 +81,20 @@ theorem query_keys : (queryFields fullQuery).map Prod.fst = structKeys "innerQue
 /-! ## Expressions: every tree -/
 
 /-- What `Unmarshal(Marshal(e))` is for EVERY expression tree (including trees the parser never
-produces): the tree itself when all its number literals are finite, a decoding error otherwise. -/
+produces, nil children and the nil expression itself): the tree when it is well formed (no nil
+child, all number literals finite), a decoding error otherwise. -/
 theorem expr_roundtrip_exact (e : Expr) :
-    unmarshal (some (marshal e)) = if e.allFinite then .ok e else .error .syntax :=
+    unmarshal (marshalRaw e) = if e.wellFormed then .ok e else .error .syntax :=
   unmarshal_marshal e
 
 /-- the same for the element-wise loops over select / order-by / call parameters -/
 theorem exprs_roundtrip_exact (es : List Expr) :
-    unmarshalAll (marshalList es) = if allFiniteList es then .ok es else .error .syntax :=
+    unmarshalAll (marshalList es) = if wellFormedList es then .ok es else .error .syntax :=
   unmarshalAll_marshalList es
 
-/-- C17 on expression trees, under the guard that no number literal is NaN/±Inf. -/
-theorem expr_roundtrip_partial (e : Expr) (h : e.allFinite = true) :
-    unmarshal (some (marshal e)) = .ok e := by
+/-- C17 on expression trees, under the guard `wellFormed` (no nil child, no NaN/±Inf literal). -/
+theorem expr_roundtrip_partial (e : Expr) (h : e.wellFormed = true) :
+    unmarshal (marshalRaw e) = .ok e := by
   rw [expr_roundtrip_exact, h]; rfl
 
 /-! ## Interval ↦ String ↦ Interval -/
@@ -116,26 +122,26 @@ theorem interval_roundtrip (v : Int) (h : (1000 : Int) ∣ v) :
 /-- What `UnmarshalJSON(MarshalJSON(q))` is for EVERY statement value: `q` with both intervals
 cut to whole seconds when all number literals are finite, a decoding error otherwise. -/
 theorem query_roundtrip_exact (q : Query) :
-    unmarshalQuery (marshalQuery q) = if q.allFinite then .ok q.wireImage else .error .syntax :=
+    unmarshalQuery (marshalQuery q) = if q.wellFormed then .ok q.wireImage else .error .syntax :=
   unmarshalQuery_marshalQuery q
 
 theorem wireImage_eq (q : Query) (hi : (1000 : Int) ∣ q.interval) (hs : (1000 : Int) ∣ q.storageInterval) :
     q.wireImage = q := by
   simp [Query.wireImage, Int.tmod_eq_zero_of_dvd hi, Int.tmod_eq_zero_of_dvd hs]
 
-/-- C17 on statements: under the guards (no NaN/±Inf literal; `Interval` and `StorageInterval`
-whole numbers of seconds — what `Interval.String` can express) the leaf gets exactly the
-statement the root marshalled. -/
-theorem query_roundtrip_partial (q : Query) (hf : q.allFinite = true)
+/-- C17 on statements: under the guards (no nil child, no NaN/±Inf literal; `Interval` and
+`StorageInterval` whole numbers of seconds — what `Interval.String` can express) the leaf gets
+exactly the statement the root marshalled. -/
+theorem query_roundtrip_partial (q : Query) (hf : q.wellFormed = true)
     (hi : (1000 : Int) ∣ q.interval) (hs : (1000 : Int) ∣ q.storageInterval) :
     unmarshalQuery (marshalQuery q) = .ok q := by
   rw [query_roundtrip_exact, hf, wireImage_eq q hi hs]; rfl
 
 /-- the guards are necessary: if the round trip succeeds with `q`, they hold -/
 theorem query_roundtrip_guards_necessary (q : Query) (h : unmarshalQuery (marshalQuery q) = .ok q) :
-    q.allFinite = true ∧ (1000 : Int) ∣ q.interval ∧ (1000 : Int) ∣ q.storageInterval := by
+    q.wellFormed = true ∧ (1000 : Int) ∣ q.interval ∧ (1000 : Int) ∣ q.storageInterval := by
   rw [query_roundtrip_exact] at h
-  by_cases hf : q.allFinite = true
+  by_cases hf : q.wellFormed = true
   · simp only [hf, if_true] at h
     have hq : q.wireImage = q := by injection h
     have h1 : q.interval - q.interval.tmod 1000 = q.interval := congrArg Query.interval hq
@@ -146,10 +152,10 @@ theorem query_roundtrip_guards_necessary (q : Query) (h : unmarshalQuery (marsha
 
 theorem metadata_roundtrip_exact (m : Metadata) :
     unmarshalMetadata (marshalMetadata m) =
-      if optAllFinite m.condition then .ok m else .error .syntax :=
+      if optWellFormed m.condition then .ok m else .error .syntax :=
   unmarshalMetadata_marshalMetadata m
 
-theorem metadata_roundtrip_partial (m : Metadata) (h : optAllFinite m.condition = true) :
+theorem metadata_roundtrip_partial (m : Metadata) (h : optWellFormed m.condition = true) :
     unmarshalMetadata (marshalMetadata m) = .ok m := by
   rw [metadata_roundtrip_exact, h]; rfl
 
@@ -166,6 +172,7 @@ structure TextCodec where
 
 mutual
 theorem marshal_wireOk : ∀ e : Expr, (marshal e).wireOk = true
+  | .nil => by simp [marshal, Json.wireOk]
   | .field _ | .equals _ _ | .like _ _ | .regex _ _ => by
     simp [marshal, Json.wireOk, wireOkFields]
   | .inE _ vs => by
@@ -194,10 +201,13 @@ theorem marshalList_wireOk : ∀ es : List Expr, wireOkList (marshalList es) = t
 end
 
 /-- through the text layer: root `Marshal` → bytes → leaf `Unmarshal`, every finite tree -/
-theorem wire_expr_roundtrip_partial (C : TextCodec) (e : Expr) (h : e.allFinite = true) :
+theorem wire_expr_roundtrip_partial (C : TextCodec) (e : Expr) (h : e.wellFormed = true) :
     (C.parse (C.encode (marshal e))).bind (fun j => unmarshal (some j)) = .ok e := by
   rw [C.parse_encode _ (marshal_wireOk e)]
-  exact expr_roundtrip_partial e h
+  have := expr_roundtrip_partial e h
+  cases e with
+  | nil => simp [Expr.wellFormed] at h
+  | _ => exact this
 
 /-! ## Error branches of `Unmarshal`, stated explicitly -/
 
@@ -249,15 +259,15 @@ theorem unmarshal_leaf_missing_fields :
       = .ok (.equals "k" "") ∧
     unmarshal (some (.obj [("type", .str "call")])) = .ok (.call 0 []) := by
   refine ⟨?_, ?_, ?_⟩ <;> rw [unmarshal] <;>
-    simp [getStr, getFlt, getInt, getRaw, getRawList, arrElems, lookup, unmarshalNumber, unmarshalEquals,
-      leafFields, structFields, bind, Except.bind, pure, Except.pure, unmarshalAll]
+    simp [getStr, getFlt, getInt, getRaw, rawElem, getRawList, arrElems, lookup, unmarshalNumber,
+      unmarshalEquals, leafFields, structFields, bind, Except.bind, pure, Except.pure, unmarshalAll]
 /-- a later duplicate key wins -/
 theorem unmarshal_duplicate_tag :
     unmarshal (some (.obj [("type", .str "field"), ("type", .str "number"),
       ("expr", .obj [("name", .str "a")])])) = .ok (.number F64.zero) := by
   rw [unmarshal]
-  simp [getStr, getFlt, getRaw, lookup, unmarshalNumber, leafFields, structFields, bind, Except.bind,
-    pure, Except.pure]
+  simp [getStr, getFlt, getRaw, rawElem, lookup, unmarshalNumber, leafFields, structFields, bind,
+    Except.bind, pure, Except.pure]
 /-- statement level: `interval` present but not a string / not `<int><unit>` -/
 theorem unmarshalQuery_bad_interval :
     unmarshalQuery (.obj [("interval", .int 5)]) = .error .intervalInvalid ∧
@@ -274,8 +284,8 @@ theorem unmarshalQuery_bad_interval :
 /-- statement level: the empty object is the zero statement (every field optional) -/
 def zeroQuery : Query :=
   { explain := false, ns := "", metricName := "", selectItems := [], allFields := false,
-    condition := none, timeRange := ⟨0, 0⟩, interval := 0, storageInterval := 0, intervalRatio := 0,
-    autoGroupByTime := false, groupBy := [], having := none, orderByItems := [], limit := 0 }
+    condition := .nil, timeRange := ⟨0, 0⟩, interval := 0, storageInterval := 0, intervalRatio := 0,
+    autoGroupByTime := false, groupBy := [], having := .nil, orderByItems := [], limit := 0 }
 
 theorem unmarshalQuery_empty : unmarshalQuery (.obj []) = .ok zeroQuery := by
   simp [unmarshalQuery, structFields, getBool, getStr, getInt, getRawList, getStruct, getInterval,
@@ -284,13 +294,13 @@ theorem unmarshalQuery_empty : unmarshalQuery (.obj []) = .ok zeroQuery := by
 
 /-! ## Non-vacuity -/
 
-example : fullQuery.allFinite = true ∧ (1000 : Int) ∣ fullQuery.interval ∧
+example : fullQuery.wellFormed = true ∧ (1000 : Int) ∣ fullQuery.interval ∧
     (1000 : Int) ∣ fullQuery.storageInterval := by decide
 example : unmarshalQuery (marshalQuery fullQuery) = .ok fullQuery :=
   query_roundtrip_partial fullQuery (by decide) (by decide) (by decide)
 /-- a tree the parser never produces: order-by inside not inside a select item inside a call -/
-example : unmarshal (some (marshal (.call (-3) [.selectItem (.not (.orderBy (.paren (.regex "a" "b")) true)) "z",
-    .number ⟨0x8000000000000000⟩]))) = .ok (.call (-3) [.selectItem (.not (.orderBy (.paren (.regex "a" "b")) true)) "z",
+example : unmarshal (marshalRaw (.call (-3) [.selectItem (.not (.orderBy (.paren (.regex "a" "b")) true)) "z",
+    .number ⟨0x8000000000000000⟩])) = .ok (.call (-3) [.selectItem (.not (.orderBy (.paren (.regex "a" "b")) true)) "z",
     .number ⟨0x8000000000000000⟩]) := expr_roundtrip_partial _ (by decide)
 example : intervalString 604800000 = "7d" ∧ intervalString 0 = "0s" ∧ intervalString (-60000) = "-60s" ∧
     intervalString 90000 = "90s" ∧ intervalString 2592000000 = "1M" := by decide
@@ -306,17 +316,27 @@ theorem inf_literal_marshal :
 
 /-- ... which the receiving `Unmarshal` rejects: the leaf cannot execute the statement. -/
 theorem inf_literal_roundtrip_fails :
-    unmarshal (some (marshal (.number F64.posInf))) = .error .syntax := by
+    unmarshal (marshalRaw (.number F64.posInf)) = .error .syntax := by
   rw [expr_roundtrip_exact]; rfl
 
-/-- Any tree with a NaN/±Inf literal anywhere is lost on the wire. -/
-theorem nonfinite_never_roundtrips (e : Expr) (h : e.allFinite = false) :
-    unmarshal (some (marshal e)) = .error .syntax ∧ unmarshal (some (marshal e)) ≠ .ok e := by
+/-- `select (*) from cpu`, `select f+* ...`, `select f+10s ...`: the parser leaves the child nil;
+`Marshal(nil)` is nil, spliced as `null`, and `Unmarshal` fails on the empty message. -/
+theorem nil_child_roundtrip_fails :
+    marshal (.binary (.field "f") .nil 3) =
+      .obj [("type", .str "binary"), ("left", .obj [("type", .str "field"), ("expr", .obj [("name", .str "f")])]),
+            ("right", .null), ("operator", .int 3)] ∧
+    unmarshal (marshalRaw (.binary (.field "f") .nil 3)) = .error .syntax ∧
+    unmarshal (marshalRaw (.paren .nil)) = .error .syntax := by
+  refine ⟨by simp [marshal], ?_, ?_⟩ <;> rw [expr_roundtrip_exact] <;> rfl
+
+/-- Any tree that is not well formed (a nil child or a NaN/±Inf literal anywhere) is lost. -/
+theorem illformed_never_roundtrips (e : Expr) (h : e.wellFormed = false) :
+    unmarshal (marshalRaw e) = .error .syntax ∧ unmarshal (marshalRaw e) ≠ .ok e := by
   rw [expr_roundtrip_exact, h]
   exact ⟨rfl, by intro h'; cases h'⟩
 
 /-- the full-strength expression round trip is false of the code -/
-theorem expr_roundtrip_full_strength_false : ¬ ∀ e : Expr, unmarshal (some (marshal e)) = .ok e := by
+theorem expr_roundtrip_full_strength_false : ¬ ∀ e : Expr, unmarshal (marshalRaw e) = .ok e := by
   intro h
   have := h (.number F64.posInf)
   rw [inf_literal_roundtrip_fails] at this
@@ -333,7 +353,21 @@ def infQuery : Query :=
 theorem inf_statement_roundtrip_fails :
     unmarshalQuery (marshalQuery infQuery) = .error .syntax := by
   rw [query_roundtrip_exact]
-  have : infQuery.allFinite = false := by decide
+  have : infQuery.wellFormed = false := by decide
+  rw [this]; rfl
+
+/-- `select f+* from cpu` as the parser builds it (`allFields` set, the `+` left without a right
+operand) -/
+def nilChildQuery : Query :=
+  { zeroQuery with
+    ns := "default-ns", metricName := "cpu", limit := 20, allFields := true,
+    timeRange := ⟨1554854400000, 1554890400000⟩,
+    selectItems := [.selectItem (.binary (.field "f") .nil 3) ""] }
+
+theorem nil_child_statement_roundtrip_fails :
+    unmarshalQuery (marshalQuery nilChildQuery) = .error .syntax := by
+  rw [query_roundtrip_exact]
+  have : nilChildQuery.wellFormed = false := by decide
   rw [this]; rfl
 
 theorem query_roundtrip_full_strength_false : ¬ ∀ q : Query, unmarshalQuery (marshalQuery q) = .ok q := by
@@ -342,19 +376,21 @@ theorem query_roundtrip_full_strength_false : ¬ ∀ q : Query, unmarshalQuery (
   rw [inf_statement_roundtrip_fails] at this
   cases this
 
-/-- An interval that is not a whole number of seconds is cut by `Interval.String` (such a value
-cannot come from the parser or from `calcTimeRangeAndInterval`, whose intervals are products of
-`ValueOf` results; it is outside what the property quantifies over and is recorded only). -/
+/-- An interval that is not a whole number of seconds is cut by `Interval.String`. The parser
+produces such a value through int64 overflow in `parseDuration`:
+`group by time(100000000000000y)` gives `Interval = -26609163815616512`. -/
 theorem subsecond_interval_cut :
     intervalString 1500 = "1s" ∧ intervalValueOf (intervalString 1500) = .ok 1000 ∧
-    intervalValueOf (intervalString 999) = .ok 0 := by
-  refine ⟨by decide, ?_, ?_⟩ <;> rw [interval_roundtrip_exact] <;> rfl
+    intervalValueOf (intervalString 999) = .ok 0 ∧
+    intervalString (-26609163815616512) = "-26609163815616s" ∧
+    intervalValueOf (intervalString (-26609163815616512)) = .ok (-26609163815616000) := by
+  refine ⟨by decide, ?_, ?_, by decide, ?_⟩ <;> rw [interval_roundtrip_exact] <;> rfl
 
 theorem subsecond_statement_changed :
     unmarshalQuery (marshalQuery { zeroQuery with interval := 1500 })
       = .ok { zeroQuery with interval := 1000 } := by
   rw [query_roundtrip_exact]
-  have : Query.allFinite { zeroQuery with interval := 1500 } = true := by decide
+  have : Query.wellFormed { zeroQuery with interval := 1500 } = true := by rfl
   rw [this]; rfl
 
 end Neg
